@@ -181,6 +181,12 @@ def r20_1_fork_copies(repo: Repo, rep: Report):
     rep.check("R20.1", ok, ms, kc, "KeccakRegistry.copy copies both maps", "hash registry shared between sibling paths")
     mu, oc = repo.fn("utils.OffsetMap.copy")
     rep.check("R20.1", "new_map._map = self._map.copy()" in src(oc), mu, oc, "OffsetMap.copy copies the dict", "offset map shared between sibling paths")
+    # copy helpers have no shortcut that hands out the original
+    for q, want in (("sevm.KeccakRegistry.copy", "new_registry"), ("utils.OffsetMap.copy", "new_map"), ("bytevec.ByteVec.copy", None), ("sevm.State.__deepcopy__", None)):
+        mq, fq = repo.fn(q)
+        rets_q = [r for r in body_walk(fq) if isinstance(r, ast.Return)]
+        ok = len(rets_q) == 1 and (want is None or src(rets_q[0].value) == want) and src(rets_q[0].value) != "self"
+        rep.check("R20.1", ok, mq, fq, f"{q}: single return of the fresh copy ({[src(r.value)[:40] for r in rets_q]})", "a copy helper can return the original object (shortcut): the `copy` is then shared between sibling paths / tests")
     _, pdc = repo.fn("sevm.Path.__deepcopy__")
     rep.check("R20.1", any(isinstance(s, ast.Raise) for s in body_walk(pdc)), ms, pdc, "Path.__deepcopy__ raises (paths are only forked through branch())", "deep-copying a Path would share its solver silently")
     _, br = repo.fn("sevm.Path.branch")
@@ -444,4 +450,11 @@ def r20_5_uid_nominal(repo: Repo, rep: Report):
     rep.check("R20.5", "uid()" not in src(em), repo.mod("sevm"), em, "base storage array names (generic) contain no random part", "base array name must be deterministic")
 
 
-RULES = [r20_0_no_dynamic_features, r20_1_fork_copies, r20_2_inactive_paths, r20_3_fresh_per_test, r20_4_process_wide_state, r20_5_uid_nominal]
+def r20_6_shared(repo: Repo, rep: Report):
+    from hsa.rules.c09 import r09_1_snapshot_restore
+
+    rep.rule("R09.1", "failed sub-frames restore the caller's state from fresh copies (shared with C09: sibling paths must not share restored containers)")
+    r09_1_snapshot_restore(repo, rep)
+
+
+RULES = [r20_6_shared, r20_0_no_dynamic_features, r20_1_fork_copies, r20_2_inactive_paths, r20_3_fresh_per_test, r20_4_process_wide_state, r20_5_uid_nominal]
